@@ -318,9 +318,8 @@ def tpRenderTABLE(self, id, root_url, url, state, substate, diff, data,
                     raise ValidationError(unauth)
 
         if 'sort' in args:
-            # Faster/less mem in-place sort
-            if isinstance(items, tuple):
-                items = list(items)
+            # sort a copy: the list belongs to the caller
+            items = list(items)
             sort = args['sort']
             size = range(len(items))
             for i in size:
